@@ -132,6 +132,18 @@ M = [
      "  static constexpr bool sends_done = sender_traits<Predecessor>::sends_done;",
      "  static constexpr bool sends_done = false;",
      "then() claims sends_done=false"),
+    ("m60", "C04", "include/unifex/when_all_range.hpp",
+     "  void set_done() noexcept {\n    if (!op_.doneOrError_.exchange(true, std::memory_order_relaxed)) {\n      op_.stopSource_.request_stop();\n    }",
+     "  void set_done() noexcept {\n    if (!op_.doneOrError_.exchange(true, std::memory_order_relaxed)) {\n    }",
+     "when_all_range: a child's done no longer cancels its siblings"),
+    ("m61", "C01", "include/unifex/when_all_range.hpp",
+     "    if (refCount_.fetch_add(1, std::memory_order_relaxed) == 0) {\n      // deliver_result already called\n      return;\n    }\n    stopSource_.request_stop();\n\n    element_complete();",
+     "    if (refCount_.fetch_add(1, std::memory_order_relaxed) == 0) {\n      // deliver_result already called\n      return;\n    }\n    stopSource_.request_stop();\n    if (doneOrError_.load(std::memory_order_relaxed)) return;\n    element_complete();",
+     "when_all_range: stop callback keeps its reference when a child already failed (lost completion)"),
+    ("m62", "C05", "include/unifex/when_all_range.hpp",
+     "    if (!op_.doneOrError_.exchange(true, std::memory_order_relaxed)) {\n      op_.error_.emplace(",
+     "    if (!op_.doneOrError_.exchange(true, std::memory_order_relaxed) || !op_.error_.has_value()) {\n      op_.error_.emplace(",
+     "when_all_range: a later error overrides an earlier done"),
 ]
 
 
